@@ -85,7 +85,14 @@ def lift(x, sort):
     return const(x, sort)
 
 
+def _coerce(a, b):
+    if a.sort == "Real" and b.sort == "Int": return a, toreal(b)
+    if a.sort == "Int" and b.sort == "Real": return toreal(a), b
+    return a, b
+
+
 def add(a, b):
+    if a.sort != b.sort: a, b = _coerce(a, b)
     if a.is_const and b.is_const: return const(a.val + b.val, a.sort)
     if a.is_const and a.val == 0: return b
     if b.is_const and b.val == 0: return a
@@ -103,6 +110,7 @@ def sub(a, b): return add(a, neg(b))
 
 
 def mul(a, b):
+    if a.sort != b.sort: a, b = _coerce(a, b)
     if a.is_const and b.is_const: return const(a.val * b.val, a.sort)
     for x, y in ((a, b), (b, a)):
         if x.is_const:
